@@ -16,6 +16,7 @@ package types
 //@ smt (define-fun ts ((s Str)) Int (ite (isuint (vtail s)) (parseuint (vtail s)) 0))
 //@ smt (define-fun cmp ((a Str) (b Str)) Int (ite (not (= (strcmp (uk a) (uk b)) 0)) (strcmp (uk a) (uk b)) (ite (< (ts a) (ts b)) 1 (ite (> (ts a) (ts b)) (- 1) 0))))
 //@ smt (define-fun mk ((k Str) (t Int)) Str (scat (scat k str_at) (fmtuint t)))
+//@ smt (define-fun canon ((s Str)) Bool (and (>= (lastat s) 0) (= s (scat (scat (sslice s 0 (lastat s)) str_at) (fmtuint (ite (isuint (sslice s (+ (lastat s) 1) (slen s))) (parseuint (sslice s (+ (lastat s) 1) (slen s))) 0))))))
 //
 //@ func types.ParseKey -> r
 //@ props C10 C17 C09 C16 C01
@@ -47,3 +48,8 @@ package types
 //@ lemma mk_uk props C01 C05 C10 C17: forall(Str(k), Int(t), (0 <= t && t <= 18446744073709551615) ==> str_eq(uk(mk(k, t)), k), trig(mk(k, t)))
 //@ lemma mk_tail props C01 C05 C10 C17: forall(Str(k), Int(t), (0 <= t && t <= 18446744073709551615) ==> str_eq(vtail(mk(k, t)), fmtuint(t)), trig(mk(k, t)))
 //@ lemma mk_roundtrip props C01 C05 C10 C17: forall(Str(k), Int(t), (0 <= t && t <= 18446744073709551615) ==> (wf(mk(k, t)) && uk(mk(k, t)) == k && ts(mk(k, t)) == t), trig(mk(k, t)))
+//
+// canon(s): s is exactly KeyWithTs(uk(s), ts(s)) (no leading zeros or junk in the version). Two
+// canonical keys that compare equal are the same string.
+//@ lemma canon_eq local props C09 C17 C10: forall(Str(a), Str(b), (canon(a) && canon(b) && cmp(a, b) == 0) ==> a == b, trig(strord(uk(a)), strord(uk(b))))
+//@ lemma canon_mk props C09 C17 C01: forall(Str(k), Int(t), (0 <= t && t <= 18446744073709551615) ==> canon(mk(k, t)), trig(mk(k, t)))
